@@ -243,6 +243,13 @@ def rule_post(ctx, prop):
                             break
                     top = g.path[len(f.path):].split("::")[1]
                     ok = closure_guard.get(f"{f.path}::{top}", False)
+                    if not ok:
+                        # the guard may sit inside the closure itself (`opt.map(|(stmt, semi)| { if should_format_node(stmt) .. })`)
+                        ok = bool(guarded_by_variant(g, b, "FormatNode", "Normal")) and \
+                            any(callee(tt) == SFN and g.dominates(bb, b) and
+                                not any(re.search(r"^formatters::(stmt::format_stmt|block::format_last_stmt|.*::format_\w+)$", x)
+                                        for x in prov_calls(provenance(g, tt["args"][1])))
+                                for bb, tt in g.calls())
                 rep.inst(f"{g.key} post-processing {c.split('::')[-1]} guarded-by-Normal",
                          {"fn": g.key, "callee": c, "at": g.loc(t["sp"])}, cfg, ok=ok)
                 if not ok:
